@@ -19,6 +19,8 @@ Init == i \in 1..Len(Recs) /\ state = "none"
 Why(rec, v) == IF v.ok # rec.ok THEN (IF v.ok THEN "specification-accepts-code-refuses" ELSE "specification-refuses-code-accepts")
                ELSE IF ~v.ok /\ v.err # rec.err THEN "other-error-class"
                ELSE IF v.ok /\ v.tree # rec.tree THEN "other-syntax-tree"
+               \* where the recorder also carries the verdict of the RFC typing rules (Typing.tla, for programs of MC_Typing): the three agree
+               ELSE IF rec.accept # "na" /\ v.ok # (rec.accept = "yes") THEN "parser-model-disagrees-with-the-typing-rules"
                ELSE ""
 Judge ==
   /\ state = "none"
